@@ -618,19 +618,21 @@ def translate(
 
     positive = []  # type: list[AnyStr]
     negative = []  # type: list[AnyStr]
+    used = 0
 
     if exclude is not None:
         flags = no_negate_flags(flags)
         negative = translate(exclude, flags=flags | DOTMATCH | _NO_GLOBSTAR_CAPTURE, limit=limit)[0]
-        limit -= len(negative)
+        # The exclusion patterns count against the same limit
+        used = len(negative)
 
     flags = (flags | _TRANSLATE) & FLAG_MASK
     is_unix = is_unix_style(flags)
     seen = set()
 
     try:
-        current_limit = limit
-        total = 0
+        current_limit = max(limit - used, 1) if limit > 0 else limit
+        total = used
         for pattern in iter_patterns(patterns):
             pattern = util.norm_pattern(pattern, not is_unix, bool(flags & RAWCHARS))
             count = 0
@@ -705,18 +707,20 @@ def compile_pattern(
 
     positive = []  # type: list[Pattern[AnyStr]]
     negative = []  # type: list[Pattern[AnyStr]]
+    used = 0
 
     if exclude is not None:
         flags = no_negate_flags(flags)
         negative = compile_pattern(exclude, flags=flags | DOTMATCH | _NO_GLOBSTAR_CAPTURE, limit=limit)[0]
-        limit -= len(negative)
+        # The exclusion patterns count against the same limit
+        used = len(negative)
 
     is_unix = is_unix_style(flags)
     seen = set()
 
     try:
-        current_limit = limit
-        total = 0
+        current_limit = max(limit - used, 1) if limit > 0 else limit
+        total = used
         for pattern in iter_patterns(patterns):
             pattern = util.norm_pattern(pattern, not is_unix, bool(flags & RAWCHARS))
             count = 0
